@@ -243,3 +243,150 @@ example : ∃ st0 : Sspor, Sspor.init { kind := .svd, nModes := some 2, fitted :
     subst this; decide
 
 end PsVerif
+
+namespace PsVerif
+
+/-! ### the reported sensor count along a history -/
+
+/-- the reported count never exceeds the length of the ranking -/
+def Sspor.CountOK (st : Sspor) : Prop :=
+  ∀ r, st.ranking = some r → ∃ k, st.nSensors = some k ∧ k ≤ r.length
+
+/-- an accepted `fit` leaves a count that fits the basis matrix it installs -/
+theorem fit_ok_count (st : Sspor) (ne nf : Nat) (pf : Bool) (o : List Nat) (hok : (st.fit ne nf pf o).2 = none) :
+    ∃ shape k, (st.fit ne nf pf o).1.bm = some shape ∧ (st.fit ne nf pf o).1.nSensors = some k ∧ k ≤ shape.1 := by
+  rw [Sspor.fit_eq_tail] at hok ⊢
+  generalize (if pf = true then
+      (st.basis, if st.basis.fitted.isSome then none else some Err.notFitted)
+    else st.basis.fit ne nf) = p at hok ⊢
+  obtain ⟨b, e1⟩ := p
+  unfold Sspor.fitTail at hok ⊢
+  cases e1 with
+  | some e => simp at hok
+  | none =>
+    simp only [] at hok ⊢
+    cases hrep : b.rep st.nBasisModes with
+    | error e => simp [hrep] at hok
+    | ok shape =>
+      simp only [hrep] at hok ⊢
+      cases hn : st.nSensors with
+      | none => exact ⟨shape, shape.1, by simp⟩
+      | some k =>
+        simp only [hn] at hok ⊢
+        cases hd : st.defaulted with
+        | true => exact ⟨shape, shape.1, by simp⟩
+        | false =>
+          simp only [hd] at hok ⊢
+          by_cases h : k > shape.1
+          · simp [h] at hok
+          · refine ⟨shape, k, ?_⟩
+            simp [h]
+            omega
+
+/-- **C01 (reported count, one call).** An accepted call keeps `CountOK`. -/
+theorem step_countOK (st : Sspor) (op : SsporOp) (h : st.CountOK) (hok : (st.step op).2 = none)
+    (ho : OracleOK st op) : (st.step op).1.CountOK := by
+  have fitcase : ∀ (s : Sspor) (ne nf : Nat) (pf : Bool) (o : List Nat), (s.fit ne nf pf o).2 = none →
+      (∀ shape, (s.fit ne nf pf o).1.bm = some shape → o.Perm (List.range shape.1)) → (s.fit ne nf pf o).1.CountOK := by
+    intro s ne nf pf o hok' hperm r hr
+    obtain ⟨hrk, _⟩ := fit_ok_installs s ne nf pf o hok'
+    obtain ⟨shape, k, hbm, hns, hle⟩ := fit_ok_count s ne nf pf o hok'
+    rw [hrk] at hr
+    have hro : o = r := Option.some.inj hr
+    subst hro
+    have hl : o.length = shape.1 := by simpa using (hperm shape hbm).length_eq
+    exact ⟨k, hns, by omega⟩
+  cases op with
+  | fit ne nf pf o =>
+    simp only [Sspor.step] at hok ⊢
+    exact fitcase st ne nf pf o hok (fun shape hbm => ho o rfl shape hbm)
+  | updateModes v x o =>
+    -- an accepted update is an accepted fit of a re-configured model
+    simp only [Sspor.step] at hok ⊢
+    have hperm : ∀ shape, (st.updateModes v x o).1.bm = some shape → o.Perm (List.range shape.1) :=
+      fun shape hbm => ho o rfl shape hbm
+    cases v with
+    | other => simp [Sspor.updateModes] at hok
+    | int z =>
+      by_cases hz : z ≤ 0
+      · simp [Sspor.updateModes, hz] at hok
+      · cases x with
+        | none =>
+          simp only [Sspor.updateModes, hz, if_false] at hok hperm ⊢
+          cases hnm : st.basis.nModes with
+          | none => simp [hnm] at hok
+          | some nm =>
+            simp only [hnm] at hok hperm ⊢
+            by_cases hc : (st.basis.fitted.isSome && decide (z.toNat ≤ nm)) = true
+            · rw [if_pos hc] at hok hperm ⊢
+              exact fitcase _ _ _ _ _ hok hperm
+            · rw [if_neg hc] at hok
+              simp at hok
+        | some p =>
+          obtain ⟨ne, nf⟩ := p
+          simp only [Sspor.updateModes, hz, if_false] at hok hperm ⊢
+          cases hnm : st.basis.nModes with
+          | none =>
+            simp only [hnm, Bool.and_false, Bool.false_eq_true, if_false] at hok hperm ⊢
+            by_cases hk : z.toNat > ne
+            · simp [hk] at hok
+            · rw [if_neg hk] at hok hperm ⊢
+              exact fitcase _ _ _ _ _ hok hperm
+          | some nm =>
+            simp only [hnm] at hok hperm ⊢
+            by_cases hc : (st.basis.fitted.isSome && decide (z.toNat ≤ nm)) = true
+            · rw [if_pos hc] at hok hperm ⊢
+              exact fitcase _ _ _ _ _ hok hperm
+            · rw [if_neg hc] at hok hperm ⊢
+              by_cases hk : z.toNat > ne
+              · simp [hk] at hok
+              · rw [if_neg hk] at hok hperm ⊢
+                exact fitcase _ _ _ _ _ hok hperm
+  | setN v =>
+    intro r hr
+    simp only [Sspor.step] at hok hr ⊢
+    have hp := setN_preserves_ranking st v
+    rw [hp.1] at hr
+    obtain ⟨k, hk, hv⟩ := (setN_ok_iff st v r hr).mp hok
+    subst hk
+    refine ⟨k, ?_, hv.2⟩
+    have hk0 : k ≠ 0 := by omega
+    have hle : ¬ ((k : Int) > (r.length : Int)) := by omega
+    simp [Sspor.setN, hr, hle, hk0]
+  | basisFit ne nf =>
+    intro r hr
+    simp only [Sspor.step] at hr ⊢
+    exact h r hr
+  | roundTrip =>
+    intro r hr
+    simp only [Sspor.step] at hr ⊢
+    exact h r hr
+
+/-- **C01 (reported count, every history).** -/
+theorem run_countOK (st : Sspor) (ops : List SsporOp) (h : st.CountOK) (hall : AllAccepted st ops) :
+    (st.run ops).CountOK := by
+  induction ops generalizing st with
+  | nil => simpa [Sspor.run] using h
+  | cons op ops ih =>
+    obtain ⟨hok, ho, hrest⟩ := hall
+    have : (st.run (op :: ops)) = ((st.step op).1).run ops := by simp [Sspor.run]
+    rw [this]
+    exact ih _ (step_countOK st op h hok ho) hrest
+
+/-- consequence: the number of selected sensors IS the reported sensor count -/
+theorem selected_length_is_count (st : Sspor) (h : st.CountOK) (sel : List Nat) (hs : st.selected = .ok sel) :
+    ∃ k, st.nSensors = some k ∧ sel.length = k := by
+  unfold Sspor.selected at hs
+  cases hr : st.ranking with
+  | none => simp [hr] at hs
+  | some r =>
+    simp only [hr] at hs
+    obtain ⟨k, hk, hle⟩ := h r hr
+    refine ⟨k, hk, ?_⟩
+    have hsel : sel = selectLead (st.nSensors.getD 0) r := by
+      cases hs; rfl
+    subst hsel
+    simp [hk, selectLead, List.length_take]
+    omega
+
+end PsVerif
